@@ -149,6 +149,9 @@ type Driver interface {
 	Books(pool types.ConnectionPool) Books
 	// Quiesce waits until the pool's own goroutines (multiplex init / Shutdown) are done.
 	Quiesce(pool types.ConnectionPool, shutdownRequested bool) error
+	// AfterSend is called after the request of a freshly leased stream was written; async drivers wait
+	// here until the connection's reader goroutine has taken the request over.
+	AfterSend(sender types.StreamSender) error
 	// SelfDeadlock is given the stack of the goroutine applying an event when that goroutine is
 	// blocked on a lock; it returns a non-empty description iff the frames prove a self-deadlock
 	// (the goroutine waits for a lock that one of its own outer frames holds). nil-able: a driver
@@ -749,6 +752,9 @@ func (w *world) newStream(variant string) string {
 	}
 	if on.noRead {
 		w.poisoned = true
+	} else if err := w.d.AfterSend(sender); err != nil {
+		w.harness("after sending the request of stream %d: %v", s.ord, err)
+		return "bad"
 	}
 	return "ok"
 }
@@ -1052,8 +1058,15 @@ func runHistory(d Driver, cfg Cfg, hist []string, probe int) (res result) {
 		}
 		if w != nil {
 			func() {
-				defer func() { recover() }()
+				defer func() {
+					if r := recover(); r != nil && res.harness == "" {
+						res.harness = fmt.Sprintf("panic while cleaning up after %v: %v", hist, r)
+					}
+				}()
 				w.cleanup()
+				if w.herr != "" && res.harness == "" {
+					res.harness = fmt.Sprintf("history %v, cleanup: %s", hist, w.herr)
+				}
 			}()
 		}
 	}()
@@ -1170,7 +1183,7 @@ func Main(t *testing.T, d Driver, quickDepth, thoroughDepth int) {
 	p := vreport.Begin("C09", part, time.Duration(vreport.Pick(4, 25))*time.Minute)
 	record := func(res result, c Case) bool {
 		if res.harness != "" {
-			vreport.HarnessError("C09", part, res.harness)
+			vreport.HarnessError("C09", part, fmt.Sprintf("cfg %+v: %s", c.Cfg, res.harness))
 			return false
 		}
 		for _, f := range res.findings {
